@@ -79,6 +79,19 @@ static In make_input(Rng& r, bool T, uint64_t seed, uint64_t domain, int kind, u
   if (synth && lg_k > 9) { synth = false; n = 5 * k + r.below(10 * k); }
   if (!synth) { if (n > budget) n = budget; budget -= n; fill_hashed(in, r, n, domain, kind, seed); in.how = "hashed n=" + std::to_string(n); }
   else { fill_synthetic(in, r, target); in.how = "synthetic C=" + std::to_string(target); count("input_synthetic"); }
+  // rare coupons in columns >= 31: mined keys (default seed only) and synthetic pairs (any seed); in every flavor but
+  // the sliding one at high offsets they sit in the surprising-value table, i.e. they reach a union through the table
+  if (cls != 0 && seed == DEFAULT_SEED && !rare_keys().empty() && r.chance(0.3)) {
+    const int nr = static_cast<int>(r.range(1, 3));
+    for (int i = 0; i < nr; ++i) feed(*in.sk, in.m, rare_val(rare_keys()[r.below(rare_keys().size())]), seed);
+    in.how += " +rare-keys"; count("input_rare_key_planted");
+  }
+  if (rare_keys().size() < 3) count("rare_keys_failed_verification");
+  if (cls != 0 && r.chance(0.25) && in.m.C + 4 <= max_coupons(lg_k)) {
+    const int np = static_cast<int>(r.range(1, 4));
+    for (int i = 0; i < np; ++i) { const uint32_t rc = (static_cast<uint32_t>(r.below(k)) << 6) | static_cast<uint32_t>(r.range(31, 63)); in.sk->row_col_update(rc); in.m.add_rc(rc); }
+    in.how += " +synthetic-cols>=31"; count("input_synthetic_hi_col_planted");
+  }
   if (r.chance(0.25) && in.m.C > 0) {
     auto b = in.sk->serialize();
     in.sk.reset(new cpc_sketch(cpc_sketch::deserialize(b.data(), b.size(), seed)));
@@ -108,12 +121,15 @@ static void classify(const cpc_union& u, const Model& um, const In& in) {
     lg = in.m.lg_k;
   }
   if (sf == F_SPARSE && acc) {
+    if (hi_col_coupons(in.m)) count("caseA_with_col_ge32");
     if (acc_c == 0 && lg == in.m.lg_k) count("caseA_copy_into_empty");
     else if (in.m.lg_k > lg) count("caseA_walk_downsampling");
     else count("caseA_walk_equal_k");
     return;
   }
-  if (sf == F_SPARSE) { count(in.m.lg_k > lg ? "caseB_downsampling" : "caseB_equal_k"); return; }
+  const uint64_t hi = hi_col_coupons(in.m);      // coupons in columns >= 32 (in the source's table unless it is sliding)
+  if (sf == F_SPARSE) { count(in.m.lg_k > lg ? "caseB_downsampling" : "caseB_equal_k"); if (hi) count("caseB_table_with_col_ge32_into_matrix"); return; }
+  if (hi && (sf == F_HYBRID || sf == F_PINNED)) count("caseC_table_with_col_ge32_into_matrix");
   if (acc) count("switch_to_bit_matrix_before_windowed_source");
   if (sf == F_HYBRID) count(in.m.lg_k > lg ? "caseC_hybrid_downsampling" : "caseC_hybrid_equal_k");
   else if (sf == F_PINNED) count(in.m.lg_k > lg ? "caseC_pinned_downsampling" : "caseC_pinned_equal_k");
